@@ -104,12 +104,16 @@ theorem ool_position_restored (f : File) (unc : Codec) (hc : CodecOK unc) (m : M
     ∀ ns, answerReads true f unc (oolDetour true f unc m b o n).2.2 ns = answerReads true f unc m ns :=
   oolDetour_restores hc hm b o n hok
 
-/-! ### Part 2: the data reader's block cache and fragment cache (`lib/sqfs/src/data_reader.c`)
+/-! ### Part 2: the data reader (`lib/sqfs/src/data_reader.c`)
 
-`kw = false` is the code as it is (data-block cache keyed by location only), `kw = true` the code with
-`fixes/C10-data-reader-cache-key.patch`.  `sw` is the image's "location ↦ size word" function; `ConsIno`
-says an inode's block list agrees with it (true for every pair of inodes the library writes: blocks are
-shared only as whole identical `(location, size word)` runs) and is *no condition at all* when `kw = true`. -/
+`kw = true` is the code as it is (data-block cache keyed by location *and* size word, 36fa767); `kw = false` the code
+before that commit, for which `sw`/`ConsIno` describe the images on which it was sound (`ConsIno` is *no condition
+at all* when `kw = true`).  `sfix` selects the stream code: `false` as it is in /repo (D33, see
+`Sqfs/Witness/C10.lean`), `true` with `fixes/C10-stream-frag-fail.patch`; the theorems below hold for both, because
+D33 lives in the stream object, not in the reader's caches.  A history is any sequence of
+`sqfs_data_reader_read`, `sqfs_data_reader_get_fragment`, stream `get_buffered_data` calls (on streams in any
+state) and `sqfs_data_reader_load_fragment_table` reloads.  `sqfs_data_reader_get_block` does not use the reader
+object beyond `block_size`: `DataReader.getBlockApi` has no reader argument. -/
 
 /-- a freshly created data reader (after `load_fragment_table`) is coherent -/
 theorem data_coherent_init (kw : Bool) (f : File) (unc : Codec) (sw : Nat → Nat) (bs : Nat) (tbl : List (Nat × Nat)) :
@@ -123,42 +127,90 @@ theorem data_coherent_read (kw : Bool) (f : File) (unc : Codec) (sw : Nat → Na
     (DataReader.read kw f unc d ino o n).1 = DataReader.readSpec f unc d.blockSize d.tbl ino o n :=
   ⟨(DataReader.read_spec hc hd ino hi o n).2.1, (DataReader.read_spec hc hd ino hi o n).1⟩
 
-/-- **Main theorem (data reader).**  After any history of reads whose inodes agree with the image's
-location ↦ size-word function, a read is answered by the cacheless reference — a function of the image, the
-fragment table and the query alone. -/
-theorem data_read_eq_cacheless (kw : Bool) (f : File) (unc : Codec) (sw : Nat → Nat) (hc : CodecOK unc)
-    (bs : Nat) (tbl : List (Nat × Nat)) (h : List DataReader.Op)
-    (hh : ∀ op ∈ h, match op with | .read ino _ _ => DataReader.ConsIno kw sw ino)
-    (ino : DataReader.Inode) (hi : DataReader.ConsIno kw sw ino) (o n : Nat) :
-    (DataReader.read kw f unc (DataReader.run kw f unc (DataReader.fresh bs tbl) h) ino o n).1 =
-      DataReader.readSpec f unc bs tbl ino o n := by
-  obtain ⟨hd, hb, ht⟩ := DataReader.run_dcoh hc h _ (DataReader.fresh_dcoh kw f unc sw bs tbl) hh
-  have := (DataReader.read_spec hc hd ino hi o n).1
-  rw [hb, ht] at this
-  exact this
+/-- every data reader reachable by a history is coherent -/
+theorem data_coherent_run (kw sfix : Bool) (f : File) (unc : Codec) (sw : Nat → Nat) (hc : CodecOK unc) (bs : Nat)
+    (tbl : List (Nat × Nat)) (h : List DataReader.Op) (hh : DataReader.OpsCons kw sw h) :
+    DataReader.DCoh kw f unc sw (DataReader.run kw sfix f unc (DataReader.fresh bs tbl) h) :=
+  (DataReader.run_dcoh hc sfix h _ (DataReader.fresh_dcoh kw f unc sw bs tbl) hh).1
 
-/-- hence: same answer as a fresh data reader (current code, images whose inodes are consistent) -/
-theorem data_history_independent_written (f : File) (unc : Codec) (sw : Nat → Nat) (hc : CodecOK unc)
-    (bs : Nat) (tbl : List (Nat × Nat)) (h : List DataReader.Op)
-    (hh : ∀ op ∈ h, match op with | .read ino _ _ => DataReader.ConsIno false sw ino)
-    (ino : DataReader.Inode) (hi : DataReader.ConsIno false sw ino) (o n : Nat) :
-    (DataReader.read false f unc (DataReader.run false f unc (DataReader.fresh bs tbl) h) ino o n).1 =
-    (DataReader.read false f unc (DataReader.fresh bs tbl) ino o n).1 := by
-  rw [data_read_eq_cacheless false f unc sw hc bs tbl h hh ino hi o n]
-  have := data_read_eq_cacheless false f unc sw hc bs tbl [] (fun _ h => nomatch h) ino hi o n
-  exact this.symm
+/-- **Main theorem (data reader).**  After any history, each entry point that goes through a cache answers
+what its cacheless reference computes from the image, the fragment table currently loaded and the query alone:
+positional read, `get_fragment`, and a stream's `get_buffered_data` (answer and new stream state). -/
+theorem data_api_eq_cacheless (kw sfix : Bool) (f : File) (unc : Codec) (sw : Nat → Nat) (hc : CodecOK unc)
+    (bs : Nat) (tbl : List (Nat × Nat)) (h : List DataReader.Op) (hh : DataReader.OpsCons kw sw h) :
+    let D := DataReader.run kw sfix f unc (DataReader.fresh bs tbl) h
+    D.blockSize = bs ∧
+    (∀ ino o n, DataReader.ConsIno kw sw ino → (DataReader.read kw f unc D ino o n).1 = DataReader.readSpec f unc bs D.tbl ino o n) ∧
+    (∀ ino, (DataReader.getFragment f unc D ino).1 = DataReader.getFragmentSpec f unc bs D.tbl ino) ∧
+    (∀ s, ((DataReader.streamGet sfix f unc D s).1, (DataReader.streamGet sfix f unc D s).2.1) =
+            DataReader.streamGetSpec sfix f unc bs D.tbl s) := by
+  obtain ⟨hd, hb⟩ := DataReader.run_dcoh hc sfix h _ (DataReader.fresh_dcoh kw f unc sw bs tbl) hh
+  have hb' : (DataReader.run kw sfix f unc (DataReader.fresh bs tbl) h).blockSize = bs := hb
+  refine ⟨hb', fun ino o n hi => ?_, fun ino => ?_, fun s => ?_⟩
+  · have := (DataReader.read_spec hc hd ino hi o n).1
+    rw [hb'] at this; exact this
+  · have := (DataReader.getFragment_spec hc hd ino).1
+    rw [hb'] at this; exact this
+  · have := (DataReader.streamGet_spec hc sfix hd s).1
+    rw [hb'] at this; exact this
 
-/-- repaired code (cache keyed by location *and* size word): history independence on **every** image,
-damaged ones included, for arbitrary inodes -/
-theorem data_history_independent_repaired (f : File) (unc : Codec) (hc : CodecOK unc)
-    (bs : Nat) (tbl : List (Nat × Nat)) (h : List DataReader.Op) (ino : DataReader.Inode) (o n : Nat) :
-    (DataReader.read true f unc (DataReader.run true f unc (DataReader.fresh bs tbl) h) ino o n).1 =
-    (DataReader.read true f unc (DataReader.fresh bs tbl) ino o n).1 := by
+/-- the code as it is (cache keyed by location and size word): **history independence on every image**, damaged
+ones included, for arbitrary inodes and streams: a used reader answers like a reader created now (which loads the
+fragment table the used reader has loaded last) -/
+theorem data_history_independent (sfix : Bool) (f : File) (unc : Codec) (hc : CodecOK unc)
+    (bs : Nat) (tbl : List (Nat × Nat)) (h : List DataReader.Op) :
+    let D := DataReader.run true sfix f unc (DataReader.fresh bs tbl) h
+    let F := DataReader.fresh bs D.tbl
+    (∀ ino o n, (DataReader.read true f unc D ino o n).1 = (DataReader.read true f unc F ino o n).1) ∧
+    (∀ ino, (DataReader.getFragment f unc D ino).1 = (DataReader.getFragment f unc F ino).1) ∧
+    (∀ s, ((DataReader.streamGet sfix f unc D s).1, (DataReader.streamGet sfix f unc D s).2.1) =
+          ((DataReader.streamGet sfix f unc F s).1, (DataReader.streamGet sfix f unc F s).2.1)) := by
   have all : ∀ i : DataReader.Inode, DataReader.ConsIno true (fun _ => 0) i := fun _ _ _ => Or.inl rfl
-  have hh : ∀ op ∈ h, match op with | .read ino _ _ => DataReader.ConsIno true (fun _ => 0) ino := by
-    intro op _; cases op; exact all _
-  rw [data_read_eq_cacheless true f unc (fun _ => 0) hc bs tbl h hh ino (all _) o n]
-  exact (data_read_eq_cacheless true f unc (fun _ => 0) hc bs tbl [] (fun _ h => nomatch h) ino (all _) o n).symm
+  have hh : DataReader.OpsCons true (fun _ => 0) h := by
+    intro op _; cases op <;> first | exact all _ | trivial
+  obtain ⟨hb, h1, h2, h3⟩ := data_api_eq_cacheless true sfix f unc (fun _ => 0) hc bs tbl h hh
+  intro D F
+  have hF := DataReader.fresh_dcoh true f unc (fun _ => 0) bs D.tbl
+  refine ⟨fun ino o n => ?_, fun ino => ?_, fun s => ?_⟩
+  · rw [h1 ino o n (all _)]; exact ((DataReader.read_spec hc hF ino (all _) o n).1).symm
+  · rw [h2 ino]; exact ((DataReader.getFragment_spec hc hF ino).1).symm
+  · rw [h3 s]; exact ((DataReader.streamGet_spec hc sfix hF s).1).symm
+
+/-- the code before 36fa767 (cache keyed by location only), on images whose inodes are consistent with one
+location ↦ size word function (kept for the record: D21) -/
+theorem data_history_independent_written (f : File) (unc : Codec) (sw : Nat → Nat) (hc : CodecOK unc)
+    (bs : Nat) (tbl : List (Nat × Nat)) (h : List DataReader.Op) (hh : DataReader.OpsCons false sw h)
+    (ino : DataReader.Inode) (hi : DataReader.ConsIno false sw ino) (o n : Nat) :
+    let D := DataReader.run false false f unc (DataReader.fresh bs tbl) h
+    (DataReader.read false f unc D ino o n).1 = (DataReader.read false f unc (DataReader.fresh bs D.tbl) ino o n).1 := by
+  obtain ⟨_, h1, _, _⟩ := data_api_eq_cacheless false false f unc sw hc bs tbl h hh
+  intro D
+  rw [h1 ino o n hi]
+  exact ((DataReader.read_spec hc (DataReader.fresh_dcoh false f unc sw bs D.tbl) ino hi o n).1).symm
+
+/-- the stream with `fixes/C10-stream-frag-fail.patch`: a `get_buffered_data` that fails leaves the stream at its
+end — whatever is asked afterwards, on whatever reader state, the answer is "end of file" (D33 closed) -/
+theorem stream_fail_stops (f : File) (unc : Codec) (d d' : DataReader.DR) (s : DataReader.Stream) (e : Status)
+    (h : (DataReader.streamGet true f unc d s).1 = .err e) :
+    (DataReader.streamGet true f unc d' (DataReader.streamGet true f unc d s).2.1).1 = .eof := by
+  have key : ∀ s0 : DataReader.Stream, (DataReader.streamGet true f unc d' s0.failed).1 = .eof := by
+    intro s0; unfold DataReader.streamGet DataReader.Stream.failed; simp
+  unfold DataReader.streamGet at h
+  rw [show DataReader.streamGet true f unc d s = _ from by unfold DataReader.streamGet; rfl]
+  by_cases h1 : s.bufOff < s.bufUsed
+  · simp only [h1, if_true] at h; cases h
+  · simp only [h1, if_false] at h ⊢
+    by_cases h2 : s.filesz = 0
+    · simp only [h2, if_true] at h; cases h
+    · simp only [h2, if_false] at h ⊢
+      generalize (if s.filesz < d.blockSize then s.filesz else d.blockSize) = used at h ⊢
+      generalize ({ s with bufOff := 0, bufUsed := used } : DataReader.Stream) = s1 at h ⊢
+      generalize DataReader.streamFill f unc d s1 used = r at h ⊢
+      obtain ⟨fl, dd⟩ := r
+      cases fl with
+      | ok mem s' => cases h
+      | fail e' => exact key _
+      | early e' => exact key _
 
 /-! ### the hypotheses are satisfiable, the statements are not vacuous -/
 
@@ -213,7 +265,7 @@ example : (oolDetour true exFile toyUnc (run true exFile toyUnc (fresh 0 10) [.s
     getPos (run true exFile toyUnc (fresh 0 10) [.seek 0 0, .read 4]) = (6, 0) := by
   decide +kernel
 
-/-- `ConsIno` for the current code is satisfiable by a non-trivial inode (one raw 8-byte block at location 0) -/
+/-- `ConsIno` for the code before 36fa767 is satisfiable by a non-trivial inode (one raw 8-byte block at location 0) -/
 example : DataReader.ConsIno false (fun _ => 16777224)
     { fileSize := 8, blocksStart := 0, fragIdx := 4294967295, fragOff := 0, blocks := [16777224] } := by
   unfold DataReader.ConsIno DataReader.Cons
